@@ -2,31 +2,50 @@
 import errno, io, os, stat as _stat, posixpath
 
 class FakeFS:
+    """directories, regular files and symbolic links (absolute targets, resolved component by component; stat follows links, lstat does not)"""
     def __init__(self, root="/fs"):
-        self.dirs = {root}; self.files = {}; self.root = root
+        self.dirs = {root}; self.files = {}; self.root = root; self.links = {}
+    def symlink(self, target, link):
+        self.links[link] = target
+    def _res(self, p, last=True):
+        parts = p.strip("/").split("/"); cur = ""
+        for n, x in enumerate(parts):
+            cur += "/" + x
+            if cur in self.links and (last or n < len(parts) - 1): cur = self.links[cur]
+        return cur
     # os.path.*
-    def exists(self, p): return p in self.dirs or p in self.files
-    def isfile(self, p): return p in self.files
+    def exists(self, p): p = self._res(p); return p in self.dirs or p in self.files
+    def isfile(self, p): return self._res(p) in self.files
     def abspath(self, p): return posixpath.normpath(p)
     # os.*
     def makedirs(self, p):
-        parts = p.strip("/").split("/"); cur = ""
+        parts = self._res(p).strip("/").split("/"); cur = ""
         for x in parts:
             cur += "/" + x; self.dirs.add(cur)
     def listdir(self, p):
+        p = self._res(p)
         if p not in self.dirs: raise OSError(errno.ENOENT, "no such dir", p)
         out = set()
-        for q in list(self.dirs) + list(self.files):
+        for q in list(self.dirs) + list(self.files) + list(self.links):
             if q != p and posixpath.dirname(q) == p: out.add(posixpath.basename(q))
         return sorted(out)
-    def stat(self, p):
+    def _mode(self, p):
         class S: pass
         s = S()
         if p in self.dirs: s.st_mode = _stat.S_IFDIR | 0o755
         elif p in self.files: s.st_mode = _stat.S_IFREG | 0o644
         else: raise OSError(errno.ENOENT, "no such file", p)
         return s
+    def stat(self, p): return self._mode(self._res(p))
+    def lstat(self, p):
+        q = self._res(p, last=False)
+        if q in self.links:
+            class S: pass
+            s = S(); s.st_mode = _stat.S_IFLNK | 0o777
+            return s
+        return self._mode(q)
     def open(self, p, mode="r", encoding=None):
+        p = self._res(p)
         fs = self
         if "w" in mode:
             class W(io.StringIO):
@@ -45,7 +64,7 @@ def install(mod, fs):
         exists = staticmethod(fs.exists); isfile = staticmethod(fs.isfile); abspath = staticmethod(fs.abspath)
     class OS:
         path = OSPath; makedirs = staticmethod(fs.makedirs); listdir = staticmethod(fs.listdir); stat = staticmethod(fs.stat)
-        lstat = staticmethod(fs.stat)         # the model has no symbolic links: lstat == stat
+        lstat = staticmethod(fs.lstat)
     class IO:
         open = staticmethod(fs.open); StringIO = io.StringIO
     saved = (mod.os, mod.io)
